@@ -3,6 +3,7 @@ from vx.unit import C
 from vx.units._cwrite import add_classwrite
 
 PROPS = ['C02']
+RLIMIT = 50
 W = 'duke/src/simple_class_writer.rs'
 L = 'duke/src/simple_class_writer/labels.rs'
 CODE = 'duke/src/tree/method/code.rs'
